@@ -648,7 +648,7 @@ def check_c05(exe, tier, seed, verdict):
     hard = sum(1 for f in files for a in f["abs"] if a["t"] == "comment" and gram.comment_is_hard(a, f["par"]))
     cov = {"states": r.distinct, "transitions": r.generated, "traces_validated_against_impl": n + acc,
            "evaluations": n + sum(len(f["lines"]) for f in files), "distinct_nontrivial": nn + hard,
-           "rule": "TLC: every single-line-value file of the base pool (MC_Comment.tla) x every insertion of 1-2 comment lines (text with further comment characters, delimiters, quotes, brackets; with and without indentation) at every position; expectation = Meaning of the file WITHOUT the inserted lines (%d pairs, every %d-th replayed). Random: %d files with comment lines over 0x20-0x7e validated line by line (PStep on a comment line may change the pending comment only). Deletion relation without a grammar: %d files of header / entry lines whose values are outside the conventional forms (unclosed leading quote, doubled quotes, lone quote, comment characters inside quotes, trailing backslash ...) read as they are and with comment lines inserted - same return code, sections, keys, values. non-trivial = inserted line contains a further comment character, delimiter, quote or bracket, is indented, or directly follows an entry." % (total, sample, len(files), ndel),
+           "rule": "TLC: every single-line-value file of the base pool (MC_Comment.tla) x every insertion of 1-2 comment lines (text with further comment characters, delimiters, quotes, brackets; with and without indentation) at every position; expectation = Meaning of the file WITHOUT the inserted lines (%d pairs, every %d-th replayed). Random: %d files with comment lines over 0x20-0x7e validated line by line (PStep on a comment line may change the pending comment only). Deletion relation without a grammar: %d files of header / entry lines whose values are outside the conventional forms (unclosed leading quote, doubled quotes, lone quote, comment characters inside quotes, trailing backslash ...) read as they are and with comment lines inserted (one file in fifty with a comment line of 64 Ki .. 200 000 bytes) - same return code, sections, keys, values. non-trivial = inserted line contains a further comment character, delimiter, quote or bracket, is indented, or directly follows an entry." % (total, sample, len(files), ndel),
            "samples": samples, "exhaustive": sample == 1, "random_hard_comment_lines": hard,
            "trusted_base": ["TLC 1.8.0", "gcc ASan/UBSan", "drv.c"]}
     return cov, BASE_ASSUME, "model_checking"
@@ -684,6 +684,11 @@ def comment_deletion_pairs(exe, rnd, n, verdict):
         while rnd.random() < 0.5 or not nins:
             withc.append(rnd.choice(["", " ", "\t"]) + rnd.choice(C) + "".join(rnd.choice(' abz=:#;"[]') for _ in range(rnd.randint(0, 12))))
             nins += 1
+        if i % 50 == 7:
+            # a comment line far longer than any buffer a reader might use (64 Ki, 128 Ki and a bit): inert as a whole
+            big = rnd.choice([65534, 65535, 65536, 70000, 131071, 131073, 200000])
+            pos = rnd.randint(0, len(withc))
+            withc.insert(pos, rnd.choice(C) + " " + ("x=1 [s] " * (big // 8 + 1))[:big])
         R = core.ROOT + "/cd%d" % (i % 16)
         sc = []
         for h, lines in ((1, base), (2, withc)):
@@ -703,8 +708,9 @@ def comment_deletion_pairs(exe, rnd, n, verdict):
         dm = [e for e in out["ev"] if e["op"] == "dump"]
         obs = [(r["rc"], (d.get("st") or {}).get("groups"), [(s_["g"], [(k["k"], k["v"]) for k in s_["keys"]]) for s_ in (d.get("st") or {}).get("secs", [])]) for r, d in zip(rd, dm)]
         if len(obs) != 2 or obs[0] != obs[1]:
-            verdict.violation("C05:deletion", dict(case, got=obs), "comment lines are not inert (delim %r comment %r):\n--- without comment lines: %s\n%s\n--- with: %s\n%s" % (
-                D, C, obs[0] if obs else None, "\n".join(base), obs[1] if len(obs) > 1 else None, "\n".join(withc)))
+            short = [ln if len(ln) < 200 else ln[:60] + "...(%d bytes)" % len(ln) for ln in withc]
+            verdict.violation("C05:deletion", dict(case, got=str(obs)[:3000], **{"with": short}), "comment lines are not inert (delim %r comment %r):\n--- without comment lines: %s\n%s\n--- with: %s\n%s" % (
+                D, C, str(obs[0] if obs else None)[:600], "\n".join(base), str(obs[1] if len(obs) > 1 else None)[:600], "\n".join(short)))
         else:
             ok += 1
     return ok
